@@ -258,6 +258,11 @@ impl Workload {
         );
 
         self.job_count += 1;
+        #[cfg(fontc_verif)]
+        {
+            fontdrasil::verif::event(|| fontdrasil::verif::Ev::JobAdded(format!("{:?}", job.id)));
+            fontdrasil::verif::point(fontdrasil::verif::Op::MainRmw(job.id.discriminant()));
+        }
         self.count_pending
             .entry(job.id.discriminant())
             .or_default()
@@ -337,6 +342,8 @@ impl Workload {
         if !glyph.emit_to_binary {
             trace!("Skipping execution of {be_id:?}; it does not emit to binary");
             for counter in self.counters(&be_id) {
+                #[cfg(fontc_verif)]
+                fontdrasil::verif::point(fontdrasil::verif::Op::MainRmw(be_id.discriminant()));
                 counter.fetch_sub(1, Ordering::AcqRel);
             }
             self.complete_one(be_id.clone());
@@ -366,6 +373,11 @@ impl Workload {
             "Updating {be_id:?} deps from {:?} to {deps:?}",
             be_job.read_access
         );
+        #[cfg(fontc_verif)]
+        fontdrasil::verif::event(|| fontdrasil::verif::Ev::AccessRewritten {
+            job: format!("{be_id:?}"),
+            access: Self::verif_access(&deps),
+        });
         be_job.read_access = deps
     }
 
@@ -377,6 +389,8 @@ impl Workload {
         timing: JobTime,
     ) -> Result<(), Error> {
         log::debug!("{success:?} successful");
+        #[cfg(fontc_verif)]
+        fontdrasil::verif::event(|| fontdrasil::verif::Ev::HandleSuccess(format!("{success:?}")));
 
         self.timer.add(timing);
 
@@ -483,6 +497,8 @@ impl Workload {
                 !self.jobs_pending.contains_key(&id.clone())
             }
             AccessType::Variant(exemplar) => {
+                #[cfg(fontc_verif)]
+                fontdrasil::verif::point(fontdrasil::verif::Op::Load(exemplar.discriminant()));
                 self.count_pending
                     .get(&exemplar.discriminant())
                     .map(|a| a.load(Ordering::Acquire))
@@ -577,6 +593,74 @@ impl Workload {
         counters
     }
 
+    #[cfg(fontc_verif)]
+    fn verif_access(access: &AnyAccess) -> String {
+        fn canon<I: Identifier>(a: &Access<I>) -> String {
+            match a {
+                Access::Set(ids) => {
+                    let mut v: Vec<String> = ids.iter().map(|i| format!("{i:?}")).collect();
+                    v.sort();
+                    format!("Set[{}]", v.join(","))
+                }
+                other => format!("{other:?}"),
+            }
+        }
+        match access {
+            AnyAccess::Fe(a) => format!("Fe:{}", canon(a)),
+            AnyAccess::Be(a) => format!("Be:{}", canon(a)),
+        }
+    }
+
+    #[cfg(fontc_verif)]
+    fn verif_counter_names(&self, id: &AnyWorkId) -> Vec<&'static str> {
+        let mut names = vec![id.discriminant()];
+        if let Some(also) = self.also_completes.get(id) {
+            names.extend(also.iter().map(|i| i.discriminant()));
+        }
+        names
+    }
+
+    #[cfg(fontc_verif)]
+    pub fn verif_digest(&self) -> String {
+        use std::hash::{Hash, Hasher};
+        fn h<T: Hash>(t: &T) -> u64 {
+            let mut s = std::collections::hash_map::DefaultHasher::new();
+            t.hash(&mut s);
+            s.finish()
+        }
+        fn acc<I: Identifier>(a: &Access<I>) -> u64 {
+            match a {
+                Access::None => 1,
+                Access::Unknown => 2,
+                Access::All => 3,
+                Access::SpecificInstanceOfVariant(i) => h(&(4u8, i)),
+                Access::Variant(i) => h(&(5u8, i.discriminant())),
+                Access::Set(ids) => ids
+                    .iter()
+                    .map(|t| match t {
+                        AccessType::Variant(i) => h(&(5u8, i.discriminant())),
+                        AccessType::SpecificInstanceOfVariant(i) => h(&(4u8, i)),
+                    })
+                    .fold(6u64, |a, b| a.wrapping_add(b)),
+            }
+        }
+        let mut total = 0u64;
+        for (id, j) in self.jobs_pending.iter() {
+            let a = match &j.read_access {
+                AnyAccess::Fe(a) => acc(a),
+                AnyAccess::Be(a) => acc(a).wrapping_mul(31),
+            };
+            total = total.wrapping_add(h(&(id, j.running, a)));
+        }
+        for id in self.success.iter() {
+            total = total.wrapping_add(h(&(id, 77u8)));
+        }
+        for (k, v) in self.count_pending.iter() {
+            total = total.wrapping_add(h(&(k, v.load(Ordering::Acquire))));
+        }
+        format!("{total:x}")
+    }
+
     pub fn exec(mut self, fe_root: &FeContext, be_root: &BeContext) -> Result<JobTimer, Error> {
         // Async work will send us it's ID on completion
         let (send, recv) =
@@ -605,6 +689,8 @@ impl Workload {
             let mut nth_wave = 0;
 
             while self.success.len() < self.job_count {
+                #[cfg(fontc_verif)]
+                fontdrasil::verif::point(fontdrasil::verif::Op::LoopHead(self.verif_digest()));
                 // Spawn anything that is currently executable (has no unfulfilled dependencies)
                 self.update_launchable(&mut launchable);
                 if launchable.is_empty() && !self.jobs_pending.values().any(|j| j.running) {
@@ -652,6 +738,13 @@ impl Workload {
                             );
 
                             let counters = self.counters(id);
+                            #[cfg(fontc_verif)]
+                            fontdrasil::verif::event(|| fontdrasil::verif::Ev::Launch {
+                                job: format!("{id:?}"),
+                                read: Self::verif_access(&self.jobs_pending[id].read_access),
+                                write: Self::verif_access(&self.jobs_pending[id].write_access),
+                                counters: self.verif_counter_names(id),
+                            });
                             let timing = timing.queued();
                             run_queue.push((work, timing, work_context, counters));
                         }
@@ -659,6 +752,12 @@ impl Workload {
                         // Try to prioritize the critical path based on --emit-timing observation
                         // <https://github.com/googlefonts/fontc/issues/456>, <https://github.com/googlefonts/fontc/pull/565>
                         run_queue.sort_by_cached_key(|(work, ..)| priority(&work.id()));
+                        #[cfg(fontc_verif)]
+                        fontdrasil::verif::event(|| {
+                            fontdrasil::verif::Ev::QueueOrder(
+                                run_queue.iter().map(|(w, ..)| format!("{:?}", w.id())).collect(),
+                            )
+                        });
                     }
                     self.timer.add(timing.complete());
 
@@ -673,6 +772,8 @@ impl Workload {
                         let abort = abort_queued_jobs.clone();
 
                         scope.spawn(move |_| {
+                            #[cfg(fontc_verif)]
+                            fontdrasil::verif::point(fontdrasil::verif::Op::TaskStart);
                             let runnable = { run_queue.lock().unwrap().pop() };
                             let Some((work, timing, work_context, counters)) = runnable else {
                                 panic!("Spawned more jobs than items available to run");
@@ -698,6 +799,14 @@ impl Workload {
                             // references:
                             // <https://doc.rust-lang.org/nomicon/exception-safety.html#exception-safety>
                             // <https://doc.rust-lang.org/std/panic/trait.UnwindSafe.html>
+                            #[cfg(fontc_verif)]
+                            fontdrasil::verif::event(|| fontdrasil::verif::Ev::ExecBegin(format!("{id:?}")));
+                            #[cfg(fontc_verif)]
+                            let verif_names: Vec<&'static str> = std::iter::once(id.discriminant())
+                                .chain(work.also_completes().iter().map(|i| i.discriminant()))
+                                .collect();
+                            #[cfg(fontc_verif)]
+                            let mut verif_i = 0;
                             let result = match std::panic::catch_unwind(AssertUnwindSafe(|| {
                                 work.exec(work_context)
                             })) {
@@ -712,16 +821,27 @@ impl Workload {
                             // before our success result has passed through the channel
                             // At peak times, such as completion of tons of glyphs, the channel seems
                             // to have tens of ms of delay.
+                            #[cfg(fontc_verif)]
+                            fontdrasil::verif::event(|| fontdrasil::verif::Ev::ExecEnd(format!("{id:?}")));
                             if result.is_ok() {
                                 for counter in counters {
+                                    #[cfg(fontc_verif)]
+                                    {
+                                        fontdrasil::verif::point(fontdrasil::verif::Op::Dec(verif_names[verif_i]));
+                                        verif_i += 1;
+                                    }
                                     counter.fetch_sub(1, Ordering::AcqRel);
                                 }
                             }
                             let timing = timing.complete();
 
+                            #[cfg(fontc_verif)]
+                            fontdrasil::verif::point(fontdrasil::verif::Op::Send(format!("{id:?}")));
                             if let Err(e) = send.send((id.clone(), result, timing)) {
                                 log::error!("Unable to write {id:?} to completion channel: {e}");
                             }
+                            #[cfg(fontc_verif)]
+                            fontdrasil::verif::point(fontdrasil::verif::Op::TaskEnd);
                         })
                     }
                     self.timer.add(timing.complete());
@@ -800,6 +920,11 @@ impl Workload {
         initial_read: RecvType,
     ) -> Result<(), Error> {
         successes.clear();
+        #[cfg(fontc_verif)]
+        match &initial_read {
+            RecvType::Blocking => fontdrasil::verif::point(fontdrasil::verif::Op::RecvBlocking(self.verif_digest())),
+            RecvType::NonBlocking => fontdrasil::verif::point(fontdrasil::verif::Op::TryRecv(self.verif_digest())),
+        }
         let mut opt_complete = match initial_read {
             RecvType::Blocking => match recv.recv() {
                 Ok(completed) => Some(completed),
@@ -814,6 +939,8 @@ impl Workload {
             },
         };
         while let Some((completed_id, result, timing)) = opt_complete.take() {
+            #[cfg(fontc_verif)]
+            fontdrasil::verif::event(|| fontdrasil::verif::Ev::Received(format!("{completed_id:?}")));
             if !match result {
                 Ok(..) => {
                     if !self.success.contains(&completed_id) {
@@ -844,6 +971,12 @@ impl Workload {
                 completed_id
             );
 
+            #[cfg(fontc_verif)]
+            fontdrasil::verif::point(fontdrasil::verif::Op::TryRecv(format!(
+                "{}B{:?}",
+                self.verif_digest(),
+                successes.iter().map(|(i, _)| format!("{i:?}")).collect::<Vec<_>>()
+            )));
             // See if anything else is complete in case things come in waves
             if let Ok(completed_id) = recv.try_recv() {
                 opt_complete = Some(completed_id);
